@@ -60,7 +60,14 @@ def run(ctx, model_ok=True):
     quick = ctx.tier == 'quick'
     pieces = gen_pieces(ctx, 60 if quick else 600)
     if model_ok:
-        fw.correspond(ctx, 'malformed-pieces (get_next_chunk, IMD track records, DOS binary header: outcome of Sys/Parsers.v = implementation)', pieces)
+        impl, _ = fw.correspond(ctx, 'malformed-pieces (get_next_chunk, IMD track records, DOS binary header: outcome of Sys/Parsers.v = implementation)', pieces)
+    else:
+        impl = fw.run_lines(fw.HARNESS_BIN, pieces)
+    # a panic or crash of the implementation on a malformed piece is the property failing, whatever the model says
+    for ln in pieces:
+        o = impl.get(ln.split()[1])
+        if o is None or o.startswith('PANIC') or o.startswith('CRASH'):
+            ctx.failures.append({'cls': f"panic:piece:{ln.split()[0]}", 'case': ln[:1500], 'detail': (o or 'NO-OUTPUT')[:400]})
     n = 10 if quick else 120
     lines = []
     k = 0
